@@ -157,7 +157,7 @@ func VH_C17_digits(form, shard, of int) {
 	rt.Assert(isInt && il.Value == want, "an integer literal has exactly its mathematical value")
 }
 
-var vMantissas = []string{"1", "12", "9", "100", "1_5", "123456789", "9223372036854775807", "92233720368547758", "10"}
+var vMantissas = []string{"1", "12", "9", "100", "1_5", "123456789", "9223372036854775807", "92233720368547758", "10", "010", "0_10", "09", "0012", "0100", "0", "00", "0x1"[:1] + "8"}
 var vExps = []string{"0", "1", "2", "3", "17", "18", "19", "-1", "-2", "00", "30"}
 
 // VH_C17_expint: mantissa and exponent are solver choices.
